@@ -73,6 +73,13 @@ pub fn check(cfg: &Config, input: &[u8], cuts: &[usize], complete: &RunResult) -
         Res::Panic(m) => return Err(("panic".into(), format!("panic: {m}{}", ctxs()))),
         Res::Err(k) => k.clone(),
     };
+    // "each flag enables recovery only for its own error kind" presupposes that a failure is reported under its own kind:
+    // when no handler was told to fail, a ContentHandlerError can only be a mislabelled memory / internal failure
+    if let ErrKind::Handler(m) = &kind {
+        if cfg.fail_at.is_none() && !m.contains("injected") {
+            return Err(("failure-reported-under-another-error-kind".into(), format!("no handler returned an error, yet the run failed with ContentHandlerError({m}){}", ctxs())));
+        }
+    }
     o.error = true;
     o.kind = format!("{kind:?}").split('(').next().unwrap().to_string();
     o.site = fail_site(&r);
